@@ -480,7 +480,33 @@ def a_duality(w: World, val: dict, tag: str) -> List[Ob]:
             elif p.state == 'raised':
                 obs.append(Ob(R, False, 'client completes', w_where(w, p), 'Client', f'Client raises at `{stmt_text(p)}`',
                               f'[{tag}] {p.name} aborted at {w_where(w, p)} `{stmt_text(p)}`: {p.error}'))
-    # at the end of each played board every replica has the same (trick number, leader) as the table manager's engine
+    # at the end of each board every replica holds the same auction, contract, trick history and turn as the table manager's engine
+    for k, b in enumerate(val['boards'], 1):
+        if b.get('illegal_at') is not None:
+            continue
+        for kind in ('auction', 'play'):
+            if kind == 'play' and b['passed_out']:
+                continue
+            reps = {owner: e for kd, owner, bd, e in w.engines if kd == kind and bd == k}
+            tm = reps.get('main')
+            if tm is None:
+                obs.append(Ob(R, False, 'table manager engine', 'bridge_env/network_bridge/server.py', 'Server', f'no {kind} engine for a board', f'[{tag}] board {k}: the table manager built no {kind} engine'))
+                continue
+            for s in SEATS:
+                c = reps.get(f'client-{s}')
+                if c is None:
+                    obs.append(Ob(R, False, 'client mirror', 'bridge_env/network_bridge/client.py', 'Client', f'client builds no {kind} mirror', f'[{tag}] board {k}: client {s} built no {kind} mirror'))
+                    continue
+                if kind == 'auction':
+                    same = c.bid_history == tm.bid_history and c.active_player == tm.active_player and c.contract() == tm.contract()
+                    what = f'calls {len(c.bid_history)}/{len(tm.bid_history)}, turn {c.active_player}/{tm.active_player}'
+                else:
+                    same = (c.cards_seen, c.playing_history, c.trick_num, c.leader, c.active_player, c.declarer, c.dummy) == \
+                        (tm.cards_seen, tm.playing_history, tm.trick_num, tm.leader, tm.active_player, tm.declarer, tm.dummy)
+                    what = f'cards {len(c.cards_seen)}/{len(tm.cards_seen)}, trick {c.trick_num}/{tm.trick_num}, leader {c.leader}/{tm.leader}'
+                obs.append(Ob(R, same, f'[{tag}] board {k}: client {s} {kind} mirror = table manager ({what})', 'bridge_env/network_bridge/client.py',
+                              'Client.bidding_phase' if kind == 'auction' else 'Client.playing_phase', f'client {kind} mirror differs from the table manager at the end of a board',
+                              f'[{tag}] board {k}: client {s}\'s {kind} mirror ends with {what} (client/table manager)'))
     return obs
 
 
@@ -506,6 +532,9 @@ def a_log(w: World, val: dict, tag: str) -> List[Ob]:
     teams = val.get('team_of', {'N': 'A', 'S': 'A', 'E': 'B', 'W': 'B'})
     if any(b.get('illegal_at') is not None for b in boards):
         return obs
+    for role, kind, detail, where in w.anomalies:
+        if kind == 'random':
+            obs.append(Ob('C08.R5', False, 'no random choice for a configured value', where, 'Server.run', 'random choice although the board is configured', f'[{tag}] {detail} (at {where})'))
     obs.append(Ob(R, len(recs) == len(boards), 'one record per board', S, 'Server.run', 'record count', f'[{tag}] {len(recs)} records for {len(boards)} boards'))
     f0 = w.folder0
     for k, (rec, b) in enumerate(zip(recs, boards), 1):
@@ -651,3 +680,188 @@ def schedule_independence(chk, res: List[dict], rule: str):
                     f'[{vid}] {len(rs)} scheduling policies give identical connection streams and log records',
                     f'[{vid}] connection streams / log records differ between scheduling policies {[r["policy"] for r in rs]}')
     return groups
+
+
+# ---------------------------------------------------------------------------------------------------------------------
+# C20: admission
+# ---------------------------------------------------------------------------------------------------------------------
+def admission_spec(table: Dict[str, Optional[str]], seat: str, team: str, version: int):
+    """Spec-level verdict of one well-formed request against a seat table: ('seated'|'rejected', reason, table after)."""
+    if version != 18:
+        return 'rejected', 'version', dict(table)
+    if table[seat] is not None:
+        return 'rejected', 'seat taken', dict(table)
+    pt = table[partner(seat)]
+    if pt is not None and pt != team:
+        return 'rejected', 'partner team', dict(table)
+    t = dict(table)
+    t[seat] = team
+    return 'seated', '', t
+
+
+def connect_case_worker(args):
+    """C20.R1: PlayerThread._connect interpreted alone against one seat table and one request."""
+    root, cases = args
+    repo = _REPO.get(root)
+    if repo is None:
+        repo = _REPO[root] = Repo(root)
+    out = []
+    for table, seat, team, version in cases:
+        out.append(_connect_case(repo, table, seat, team, version))
+    return out
+
+
+def _connect_case(repo: Repo, table, seat, team, version):
+    from ..skeleton import ABarrier
+    w = World(repo, dict(boards=[]), 'fifo')
+    cid = 'c0'
+    cl, sv = AEnd(w, cid, 'client'), AEnd(w, cid, 'server')
+    cl.peer, sv.peer = sv, cl
+    tbl = {w.seat(s): t for s, t in table.items()}
+    ev = AEvent(w)
+    result = {}
+
+    def thread_body(f):
+        obj = f._construct(repo.cls('PlayerThread', 'C20.R1'), [], dict(connection=sv, event_sync=ABarrier(w, 1), event_thread=ev, sent_message_queues={},
+                                                                    received_message_queues={}, players_event={}, team_names=tbl))
+        result['ret'] = f._getattr_call(obj, '_connect', [], {})
+
+    def req_body(f):
+        cl.send_msg(f'Connecting "{team}" as {FORMAL[seat]} using protocol version {version}')
+        r = cl.recv_msg()
+        result['reply'] = r
+        if isinstance(r, str) and r.lower().endswith('seated'):
+            cl.send_msg(f'{FORMAL[seat]} ready for teams')
+            result['teams'] = cl.recv_msg()
+            cl.send_msg(f'{FORMAL[seat]} ready to start')
+    w.sched.spawn('req', w._proc_body(req_body))
+    w.sched.spawn('T1', w._proc_body(thread_body))
+    w.run(timeout=60)
+    errs = analysis_errors(w)
+    sets = sum(1 for op, _ in ev.ops if op == 'set')
+    t1 = next(p for p in w.sched.procs if p.name == 'T1')
+    return dict(table=table, seat=seat, team=team, version=version, errors=errs, reply=result.get('reply'), ret=result.get('ret'), closed=sv.closed,
+                after={s.name: t for s, t in tbl.items()}, sets=sets, state=t1.state, err=str(t1.error) if t1.error else None,
+                where=w_where(w, t1), deadlock=w.sched.deadlock, teams=result.get('teams'), n_server_msgs=len(w.server_sent(cid)),
+                req_state=next(p for p in w.sched.procs if p.name == 'req').state)
+
+
+def scenario_worker(args):
+    """C20.R4: a whole admission phase (requests in a fixed order of arrival, or all at once) followed by a one-board session."""
+    root, scen, policy = args
+    repo = _REPO.get(root)
+    if repo is None:
+        repo = _REPO[root] = Repo(root)
+    val = dict(boards=[board('N', None)])
+    w = World(repo, val, policy)
+    w.add_server()
+    reqs = scen['requests']           # [(seat, team, version)]
+    gated = scen.get('gated', True)
+    table = {s: None for s in SEATS}
+    plan = []
+    for i, (seat, team, version) in enumerate(reqs):
+        verdict, why, table2 = admission_spec(table, seat, team, version)
+        plan.append((verdict, why))
+        if gated:
+            table = table2
+    outcomes = {}
+
+    def gate(i):
+        if gated and i > 0:
+            # request i is made only after request i-1 has received its verdict (the order of arrival is the scenario's order)
+            w.sched.block(lambda: sum(1 for e in w.events if e[1] == 'clear' and e[0] == 'main') >= i, f'arrival slot {i} (after {i} completed admission handshakes)')
+
+    def mk_script(i, seat, team, version):
+        def lines(end):
+            end.send_msg(f'Connecting "{team}" as {FORMAL[seat]} using protocol version {version}')
+            r = end.recv_msg()
+            outcomes[i] = ('reply', r)
+            if isinstance(r, str) and r.upper().startswith('ERROR'):
+                try:
+                    end.recv_msg()
+                    outcomes[i] = ('reply-not-closed', r)
+                except FoldRaise:
+                    outcomes[i] = ('rejected', r)
+            return r
+
+        def body(f):
+            gate(i)
+            s = ASock(w)
+            s.connect(('table', 2000))
+            try:
+                return lines(s.end)
+            finally:
+                s.close()
+        return w.sched.spawn(f'req{i}', w._proc_body(body))
+
+    def mk_client(i, seat, team):
+        name = f'req{i}'
+        seat_ev = w.seat(seat)
+        from ..skeleton import ABidSys, APlaySys, ADDR, Killed
+
+        def body(f):
+            gate(i)
+            c = f._construct(repo.cls('Client', 'C20.R4'), [], dict(player=seat_ev, team_name=team, bidding_system=ABidSys(w, seat_ev), playing_system=APlaySys(w, seat_ev),
+                                                                    ip_address=ADDR[0], port=ADDR[1]))
+            f._getattr_call(c, '__enter__', [], {})
+            try:
+                # the verdict is known to later requesters as soon as the client got past its connect step
+                r = f._getattr_call(c, '_connect', [], {})
+                outcomes[i] = ('seated', None)
+                # continue with the rest of Client.run (everything after self._connect())
+                return _client_after_connect(f, c, repo)
+            except FoldRaise as e:
+                outcomes.setdefault(i, ('raised', str(e)))
+                raise
+            finally:
+                try:
+                    f._getattr_call(c, '__exit__', [None, None, None], {})
+                except Killed:
+                    pass
+        return w.sched.spawn(name, w._proc_body(body))
+    for i, (seat, team, version) in enumerate(reqs):
+        if version == 18 and (not gated or plan[i][0] == 'seated'):
+            mk_client(i, seat, team)
+        else:
+            mk_script(i, seat, team, version)
+    w.run(timeout=120)
+    errs = analysis_errors(w)
+    # order in which the server accepted the connections
+    accepted = [e[2] for e in w.events if e[1] == 'accept']
+    order = [int(w.conn_owner[c][3:]) for c in accepted if w.conn_owner.get(c, '').startswith('req')]
+    if not gated:
+        table = {s: None for s in SEATS}
+        plan = [None] * len(reqs)
+        for i in order:
+            seat, team, version = reqs[i]
+            verdict, why, table = admission_spec(table, seat, team, version)
+            plan[i] = (verdict, why)
+    per_conn = {}
+    for c in accepted:
+        o = w.conn_owner.get(c, '')
+        if o.startswith('req'):
+            per_conn[int(o[3:])] = [m for m in w.server_sent(c)]
+    states = {p.name: (p.state, str(p.error)[:200] if p.error else None, w_where(w, p), stmt_text(p)) for p in w.sched.procs}
+    return dict(scen=scen, policy=policy, errors=errs, plan=plan, order=order, outcomes=outcomes, per_conn={k: [show_nf(nf(m)) for m in v] for k, v in per_conn.items()},
+                states=states, deadlock=w.sched.deadlock, final_table=table, n_log=len(w.log_records),
+                main_where=states.get('main', (None, None, '?', '?'))[2:])
+
+
+def _client_after_connect(f, c, repo):
+    """Interpret Client.run from the statement after `self._connect()` on (the admission step was interpreted separately to learn its verdict)."""
+    import ast as _ast
+    ci, fn = repo.method('Client', 'run', 'C20.R4')
+    idx = None
+    for i, st in enumerate(fn.body):
+        if isinstance(st, _ast.Expr) and isinstance(st.value, _ast.Call) and _ast.unparse(st.value.func) == 'self._connect':
+            idx = i
+    if idx is None:
+        raise AnalysisError('C20.R4', 'Client.run', 'cannot locate the `self._connect()` statement')
+    env = {'self': c}
+    try:
+        f._block(fn.body[idx + 1:], env, ci.module, ci)
+    except Exception as e:  # noqa
+        if type(e).__name__ == '_Return':
+            return getattr(e, 'v', None)
+        raise
+    return None
